@@ -1,0 +1,10 @@
+//go:build !verif
+// +build !verif
+
+package parse
+
+func verifLexStep()        {}
+func verifLexStart()       {}
+func verifLexExit()        {}
+func verifParseStep()      {}
+func verifTraverse(n Node) {}
